@@ -156,6 +156,38 @@ def is_space(c):
     return ch_pred(c, str.isspace, "isspace")
 
 
+def digits(v, base, n, name="d"):
+    """n fresh Int terms (most significant first) with  v == sum d_k*base^k, 0 <= d_k < base.
+    A definitional extension (the digits of 0 <= v < base**n are unique), which keeps every VC about
+    renderings of v in linear arithmetic instead of div/mod.  Caller guarantees 0 <= v < base**n on the path."""
+    p = core.cur()
+    ds = [p.new_int(name) for _ in range(n)]
+    for d in ds:
+        p.assume(z3.And(d >= 0, d < base))
+    total = 0
+    for d in ds:
+        total = total * base + d
+    p.assume(v == total)
+    return ds
+
+
+def select_int(v, sorted_keys):
+    """the element of concrete sorted ints equal to z3 Int v on this path, or None; balanced bisection so that
+    the decision tree has depth O(log n) (a linear scan would make a chain that cannot be explored in parallel)"""
+    p = core.cur()
+    keys = sorted_keys
+    lo, hi = 0, len(keys)
+    while hi - lo > 1:
+        mid = (lo + hi) // 2
+        if p.fork(v < keys[mid]):
+            hi = mid
+        else:
+            lo = mid
+    if lo < hi and p.fork(v == keys[lo]):
+        return keys[lo]
+    return None
+
+
 # ---------------------------------------------------------------- strings
 def _items(x):
     if isinstance(x, SymStr):
@@ -446,7 +478,26 @@ class SymStr:
         return _mk(out)
 
     def translate(self, table):
-        raise ProxyLeak("translate")
+        """str.translate with a dict keyed by code point"""
+        if not isinstance(table, dict):
+            raise ProxyLeak("translate with a non-dict table")
+        p = core.cur()
+        out = []
+        keys = sorted(table)
+        for c in self.items:
+            if isinstance(c, str):
+                r = c.translate(table)
+                out.extend(r)
+                continue
+            hit = select_int(c.v, keys)
+            if hit is None:
+                out.append(c)
+            else:
+                r = table[hit]
+                if r is None:
+                    continue
+                out.extend(chr(r) if isinstance(r, int) else _items(r))
+        return _mk(out)
 
     def lower(self):
         if any(not isinstance(c, str) for c in self.items):
@@ -463,13 +514,51 @@ class SymStr:
         c = self.concrete_or_none()
         if c is not None:
             return c.encode(encoding, errors)
-        raise ProxyLeak("encode of symbolic string")
+        enc = encoding.lower().replace("-", "").replace("_", "")
+        p = core.cur()
+        out = []
+        if enc in ("ascii", "usascii", "latin1", "iso88591"):
+            lim = 128 if enc in ("ascii", "usascii") else 256
+            for i, ch in enumerate(self.items):
+                if isinstance(ch, str):
+                    out.extend(ch.encode(encoding, errors))
+                    continue
+                if not p.fork(ch.v < lim):
+                    if errors != "strict":
+                        raise ProxyLeak("symbolic encode with error handler %r" % errors)
+                    raise UnicodeEncodeError(enc, "?" * len(self.items), i, i + 1, "ordinal not in range(%d)" % lim)
+                out.append(ch.v)
+            return SymBytes(out)
+        if enc in ("utf8",):
+            for ch in self.items:
+                if isinstance(ch, str):
+                    out.extend(ch.encode("utf-8"))
+                    continue
+                v = ch.v
+                if p.fork(v < 0x80):
+                    out.append(v)
+                elif p.fork(v < 0x800):
+                    d = digits(v, 64, 2, "u8")
+                    out.extend([0xC0 + d[0], 0x80 + d[1]])
+                elif p.fork(v < 0x10000):
+                    if p.fork(z3.And(v >= 0xD800, v <= 0xDFFF)):
+                        raise UnicodeEncodeError("utf-8", "?", 0, 1, "surrogates not allowed")
+                    d = digits(v, 64, 3, "u8")
+                    out.extend([0xE0 + d[0], 0x80 + d[1], 0x80 + d[2]])
+                else:
+                    d = digits(v, 64, 4, "u8")
+                    out.extend([0xF0 + d[0], 0x80 + d[1], 0x80 + d[2], 0x80 + d[3]])
+            return SymBytes(out)
+        raise ProxyLeak("encode(%r) of symbolic string" % encoding)
 
     def __repr__(self):
         return "S(" + "".join(c if isinstance(c, str) else "¿" for c in self.items) + ")"
 
     def __str__(self):
-        return "".join(c if isinstance(c, str) else "�" for c in self.items)
+        c = self.concrete_or_none()
+        if c is None:
+            raise ProxyLeak("str() of a symbolic string reached C code (silent concretisation refused)")
+        return c
 
     def __format__(self, spec):
         raise ProxyLeak("format() of a symbolic string")
@@ -487,6 +576,87 @@ class SymStr:
 
 def _mk(items):
     return SymStr(items)
+
+
+class SymBytes:
+    """bytes of concrete length; items are ints or z3 Int terms in 0..255"""
+
+    __slots__ = ("items",)
+
+    def __init__(self, items=()):
+        self.items = list(items)
+
+    def __len__(self):
+        return len(self.items)
+
+    def __bool__(self):
+        return bool(self.items)
+
+    def __getitem__(self, i):
+        if isinstance(i, slice):
+            return SymBytes(self.items[i])
+        b = self.items[i]
+        return b if isinstance(b, int) else SymInt(b)
+
+    def __iter__(self):
+        for b in self.items:
+            yield b if isinstance(b, int) else SymInt(b)
+
+    def __add__(self, o):
+        return SymBytes(self.items + (o.items if isinstance(o, SymBytes) else list(o)))
+
+    def __radd__(self, o):
+        return SymBytes(list(o) + self.items)
+
+    def __hash__(self):
+        raise ProxyLeak("hash of symbolic bytes")
+
+    def __eq__(self, o):
+        oi = o.items if isinstance(o, SymBytes) else (list(o) if isinstance(o, (bytes, bytearray)) else None)
+        if oi is None or len(oi) != len(self.items):
+            return False
+        return all(core.cur().fork(a == b) if not (isinstance(a, int) and isinstance(b, int)) else a == b
+                   for a, b in zip(self.items, oi))
+
+    def decode(self, encoding="utf-8", errors="strict"):
+        enc = encoding.lower().replace("-", "").replace("_", "")
+        p = core.cur()
+        if enc in ("ascii", "usascii", "latin1", "iso88591"):
+            lim = 128 if enc in ("ascii", "usascii") else 256
+            out = []
+            for i, b in enumerate(self.items):
+                if isinstance(b, int):
+                    if b >= lim:
+                        raise UnicodeDecodeError(enc, bytes([b]), 0, 1, "ordinal not in range")
+                    out.append(chr(b))
+                else:
+                    if lim == 128 and not p.fork(b < 128):
+                        raise UnicodeDecodeError(enc, b"?", 0, 1, "ordinal not in range(128)")
+                    out.append(SymChar(b))
+            return SymStr(out)
+        raise ProxyLeak("decode(%r) of symbolic bytes" % encoding)
+
+    def bytes_repr(self):
+        """model of repr(bytes)/str(bytes): b'...' ; exact for printable ASCII, escapes for the rest abort"""
+        p = core.cur()
+        out = ["b", "'"]
+        for b in self.items:
+            if isinstance(b, int):
+                r = repr(bytes([b]))[2:-1]
+                out.extend(r)
+            else:
+                ok = p.fork(z3.And(b >= 32, b < 127, b != 39, b != 92))
+                if not ok:
+                    raise core.Abort("repr of non-printable symbolic byte")
+                out.append(SymChar(b))
+        out.append("'")
+        return SymStr(out)
+
+    def __repr__(self):
+        return "SB(%d)" % len(self.items)
+
+    def concretize(self, model):
+        return bytes((b if isinstance(b, int) else model.eval(b, model_completion=True).as_long()) for b in self.items)
 
 
 def _concrete(x):
@@ -526,6 +696,8 @@ def conc(x, model):
         return model.eval(x.e, model_completion=True).as_long()
     if isinstance(x, SymChar):
         return chr(model.eval(x.v, model_completion=True).as_long())
+    if isinstance(x, SymBytes):
+        return x.concretize(model)
     if isinstance(x, (list, tuple)):
         return type(x)(conc(i, model) for i in x)
     if isinstance(x, dict):
